@@ -70,26 +70,15 @@ class Check:
         self.replay_dir = os.path.join(VERIF, 'evidence', 'replay', pid)
 
     # ------------------------------------------------------------------ solver
-    def solve(self, constraints, timeout_ms=30000, logic=None):
-        s = z3.Solver()
-        s.set('timeout', int(timeout_ms))
-        for c in constraints:
-            s.add(c)
-        t0 = time.time()
-        r = s.check()
-        dt = time.time() - t0
+    def solve(self, constraints, timeout_ms=30000, engine='z3'):
+        from . import smt
+        r, m, dt = smt.check(constraints, timeout_ms, engine)
         self.solver_s += dt
+        self.queries += 1
         if dt > 2 and os.environ.get('VERIF_DEBUG'):
             print('  [slow query %.1fs -> %s]' % (dt, r))
-        self.queries += 1
-        if r == z3.sat:
-            self.counts['sat'] += 1
-            return 'sat', s.model()
-        if r == z3.unsat:
-            self.counts['unsat'] += 1
-            return 'unsat', None
-        self.counts['unknown'] += 1
-        return 'unknown', None
+        self.counts[r] += 1
+        return r, m
 
     def note_formula(self, constraints):
         try:
@@ -105,11 +94,12 @@ class Check:
         if sample is not None and len(self.samples) < 12:
             self.samples.append(sample)
 
-    def prove(self, name, constraints, timeout_ms=30000, family=None, sample=None, gap_key=None):
+    def prove(self, name, constraints, timeout_ms=30000, family=None, sample=None, gap_key=None,
+              engine='z3'):
         """obligation holds iff constraints (negated claim + path condition) are unsat.
         returns ('unsat'|'sat'|'unknown', model)"""
         self.note_formula(constraints)
-        r, m = self.solve(constraints, timeout_ms)
+        r, m = self.solve(constraints, timeout_ms, engine)
         if r == 'unsat':
             self.record(name, 'discharged', family=family,
                         sample=sample or {'obligation': name, 'result': 'unsat'})
@@ -122,10 +112,10 @@ class Check:
                 self.inconclusive.append(name)
         return r, m
 
-    def witness(self, name, constraints, timeout_ms=30000):
+    def witness(self, name, constraints, timeout_ms=30000, engine='z3'):
         """vacuity twin: constraints must be satisfiable"""
         self.witness_total += 1
-        r, m = self.solve(constraints, timeout_ms)
+        r, m = self.solve(constraints, timeout_ms, engine)
         if r == 'sat':
             self.witness_ok += 1
             return True
